@@ -66,6 +66,26 @@ Section PopEquiv.
     pf (gen_SEAWithAdaptiveMutation_run gdef mx k_elites pipeline parents o1 o2) = sea_select mx k_elites (pf parents) (pf (pipeline parents)) o1 o2.
   Proof. intros Ap Ao. unfold gen_SEAWithAdaptiveMutation_run. now apply BaseSEA_run_fits. Qed.
 
+  (* TournamentSelection: every row of the result is the row of the GIVEN population at the winner of one tournament (np.random.randint is
+     an oracle); the winner of a row is its first best entry in the problem's direction; size stays the number of tournaments *)
+  Definition tour_winners (mx : bool) (fs : list Z) (tour : list (list nat)) : list nat :=
+    map2 (fun (row : list nat) (k : nat) => nth k row O) tour (map (first_arg mx) (map (take_idx 0%Z fs) tour)).
+  Theorem tournament_rows mx p tour : aligned p ->
+    rows_of (gen_TournamentSelection_call gdef mx p tour) = map (fun i => nth i (rows_of p) (gdef, 0%Z)) (tour_winners mx (pf p) tour).
+  Proof. intros A. unfold gen_TournamentSelection_call, tour_winners, rows_of. cbn [pg pf]. destruct mx; now apply take_idx_combine. Qed.
+  Theorem tournament_pair mx fs j0 j1 :
+    nth (first_arg mx (take_idx 0%Z fs [j0; j1])) [j0; j1] O = nth (tournament_pick mx (nth j0 fs 0%Z) (nth j1 fs 0%Z)) [j0; j1] O.
+  Proof.
+    unfold take_idx, first_arg, tournament_pick, Ord.better, Ord.good. cbn [map first_arg_from].
+    destruct mx; [destruct (Z.ltb_spec (nth j0 fs 0%Z) (nth j1 fs 0%Z)), (Z.ltb_spec (- nth j1 fs 0%Z) (- nth j0 fs 0%Z))
+                 |destruct (Z.ltb_spec (nth j1 fs 0%Z) (nth j0 fs 0%Z))]; try reflexivity; lia.
+  Qed.
+  Theorem tournament_size mx p tour : length (pf (gen_TournamentSelection_call gdef mx p tour)) = length tour.
+  Proof.
+    unfold gen_TournamentSelection_call, take_idx. cbn [pf]. destruct mx; rewrite map_length; clear;
+      (induction tour as [|r t IH]; [reflexivity|cbn [map map2 length]; now rewrite IH]).
+  Qed.
+
   (* DE.run / SHADE.run: the mask and the survivors *)
   Lemma de_mask_eq (mx : bool) : forall ts ps : list Z,
     (if mx then map2 (fun x y => Z.leb y x) ts ps else map2 (fun x y => Z.leb x y) ts ps) = de_mask mx ts ps.
